@@ -23,6 +23,32 @@ def posCode : Option Nat → String
   | some n => s!"{n}"
   | none => "-2"
 
+/-- byte `i` of generated stream `seed` (harness/drv_biggen.h `big_byte`) -/
+def genByte (kind seed i : Nat) : Byte :=
+  let v := (i * 131 + seed * 17 + (i / 256) * 7) % 255 + 1
+  if kind = 1 ∧ i % 7 = 3 then 0
+  else if kind = 2 ∧ i % 5 ≠ 1 ∧ i % 11 ≠ 4 then 0
+  else UInt8.ofNat v
+
+/-- fragments of the given sizes cut from the generated stream -/
+def genFrags (kind seed : Nat) : List Nat → List (List Byte)
+  | sizes =>
+    (sizes.foldl (fun (acc : List (List Byte) × Nat) n =>
+      (acc.1 ++ [(List.range n).map fun i => genByte kind seed (acc.2 + i)], acc.2 + n)) ([], 0)).1
+
+/-- FNV-1a, 64 bit -/
+def fnv64 (b : List Byte) : UInt64 :=
+  b.foldl (fun h x => (h ^^^ x.toUInt64) * 0x100000001b3) 0xcbf29ce484222325
+
+def hex16 (v : UInt64) : String :=
+  String.ofList ((List.range 16).reverse.map fun i => hexDigit ((v.toNat >>> (4 * i)) % 16))
+
+def digest (b : List Byte) : String := s!"{b.length}:{hex16 (fnv64 b)}"
+
+def bigSizes (s : String) : Option (List Nat) :=
+  let parts := s.splitOn ","
+  if parts.any (fun p => p.isEmpty ∨ p.length > 7 ∨ !p.all Char.isDigit) then none else parts.mapM (·.toNat?)
+
 /-- line for a position-returning search: model result `r`, spec result `s` -/
 def posLine (m : Msg) (r s : Option Nat) : String :=
   s!"R {posR r}{tail m m (posCode r)} | S {posR s} ; {toHex m.flat}"
@@ -61,6 +87,18 @@ def step (s : St) (w : List String) : St × String :=
       let m : Msg := ⟨b, c⟩
       ({ m := some m }, s!"R ok{tail m m "0"} | S ok ; {toHex m.flat}")
     | _ => (s, "bad-op")
+  | ["xm", "big", mode, seeds, kinds, szs, "0", "0"] =>
+    -- C++ part: mpt::encode_array::push(const message &) with a COBS / ZPE encoder
+    match seeds.toNat?, kinds.toNat?, bigSizes szs with
+    | some seed, some kind, some sizes =>
+      let total := sizes.foldl (· + ·) 0
+      if (mode ≠ "epush" ∧ mode ≠ "ezpe") ∨ seed > 1000 ∨ kind > 2 ∨ sizes.length > 64 ∨ total > 150000 then (s, "bad-op") else
+      let frags := genFrags kind seed sizes
+      -- the push function takes a part in passes (encoder buffer extended by 128 bytes each time)
+      let r := Msg.sappendLoop (fun n => Nat.min n 128) frags [] [] 0
+      let flat := frags.flatten
+      (s, s!"R ret={r.1} msgs={digest r.2.1} | C - | I code=0 | S ret={flat.length} msgs={digest flat} ; -")
+    | _, _, _ => (s, "bad-op")
   | "m" :: "qget" :: mx :: off :: fill :: pos :: take :: flag =>
     if flag ≠ [] ∧ flag ≠ ["novec"] then (s, "bad-op") else
     let novec := flag = ["novec"]
@@ -171,6 +209,26 @@ def step (s : St) (w : List String) : St × String :=
         let r := m.sappend
         let sp := Flat.sappend d
         (s, s!"R ret={r.1} wire={fmtW r.2}{tail m m "0"} | S ret={sp.1} wire={fmtW sp.2} ; {toHex d}")
+      | "big", [mode, seeds, kinds, szs, n1s, n2s] =>
+        match seeds.toNat?, kinds.toNat?, bigSizes szs, n1s.toNat?, n2s.toNat? with
+        | some seed, some kind, some sizes, some n1, some n2 =>
+          let total := sizes.foldl (· + ·) 0
+          if (mode ≠ "sbuf" ∧ mode ≠ "scobs") ∨ seed > 1000 ∨ kind > 2 ∨ sizes.length > 64 ∨ total > 150000 ∨ n1 > 2000 ∨ n2 > 2000 then (s, "bad-op") else
+          let frags := genFrags kind seed sizes
+          let pre1 := (List.range n1).map (genByte kind (seed + 1))
+          let pre2 := (List.range n2).map (genByte kind (seed + 2))
+          let done0 : List (List Byte) := if n1 ≠ 0 ∨ n2 ≠ 0 then [pre1] else []
+          -- model: the fragment loop of mpt_stream_append / encode_array::push(message); the push function takes a
+          -- part in steps (queue space of 256 bytes)
+          let r := Msg.sappendLoop (fun n => Nat.min n 256) frags pre2 done0 0
+          let flat := frags.flatten
+          let raw := mode = "sbuf"
+          let fmt (ms : List (List Byte)) : String :=
+            if raw then digest (ms.map (· ++ [0x0a])).flatten else ",".intercalate (ms.map digest)
+          let mm := r.2.2 ++ [r.2.1]
+          let sm := done0 ++ [pre2 ++ flat]
+          (s, s!"R ret={r.1} msgs={fmt mm}{tail m m "0"} | S ret={flat.length} msgs={fmt sm} ; {toHex d}")
+        | _, _, _, _, _ => (s, "bad-op")
       | "dhash", [] =>
         let fmtH (h : Option UInt64) : String := match h with
           | some v => "ret=called hash=" ++ String.ofList ((List.range 16).reverse.map fun i => hexDigit ((v.toNat >>> (4 * i)) % 16))
